@@ -86,6 +86,7 @@ func runC09(c *Ctx) {
 		"C09.2 every RPC method whose reply is a filterable type calls the filter on its reply (directly, in its blocking-query closure, or in the helper it forwards the reply to), or is one of the listed up-front-authorised/forwarding methods",
 		"C09.3 every per-type filter asks, for the element type it filters, the authorizer questions frozen in rules/c09_filter_questions.json, on a name field of the element (not a container key), and siblings filtering the same element type agree",
 		"C09.4 in-place removal is index-safe (splice followed by an index decrement), sets the removed flag, and the ResultsFilteredByACLs flag is never overwritten inside a loop or by a later assignment",
+		"C09.4.copy a filter applied to a local copy of a slice stores the filtered copy back into the reply",
 		"C09.5 an identity obtained from a token is checked for expiry before policies, roles or an authorizer are derived from it; the server-local lookup returns a token only when it is not expired",
 		"C09.6 query metadata masks the filtered flag for anonymous callers",
 	}
@@ -472,6 +473,87 @@ func checkSplices(c *Ctx) {
 	}
 	r.Floor("C09.4.splice", 10)
 	_ = n
+	checkFilteredCopyWrittenBack(c)
+}
+
+// C09.4.copy: a filter applied to the address of a local copy (nodes :=
+// m[k]; f.filterX(&nodes)) only changes the copy. The filtered value must be
+// stored back into the reply (map update, store through a pointer, return).
+func checkFilteredCopyWrittenBack(c *Ctx) {
+	p, r := c.P, c.R
+	n := 0
+	for _, f := range p.SrcFuncs(aclfilterPkg) {
+		for _, b := range f.Blocks {
+			for _, in := range b.Instrs {
+				ci, ok := in.(ssa.CallInstruction)
+				if !ok {
+					continue
+				}
+				g := ci.Common().StaticCallee()
+				if g == nil || g.Signature.Recv() == nil || !strings.HasSuffix(core.FuncPkgPath(g), "/"+aclfilterPkg) {
+					continue
+				}
+				for ai, a := range ci.Common().Args {
+					if ai == 0 {
+						continue // receiver
+					}
+					al, ok := a.(*ssa.Alloc)
+					if !ok {
+						continue
+					}
+					// a local holding a slice or map value (not a freshly built reply object)
+					pt, _ := al.Type().Underlying().(*types.Pointer)
+					if pt == nil {
+						continue
+					}
+					switch pt.Elem().Underlying().(type) {
+					case *types.Slice:
+					default:
+						continue
+					}
+					n++
+					construct := core.FuncName(f) + "→" + g.Name() + "/" + al.Comment
+					// loads of the local after the call that reach a store outside the local, a map update or a return
+					written := false
+					if al.Referrers() != nil {
+						for _, rr := range *al.Referrers() {
+							ld, ok := rr.(*ssa.UnOp)
+							if !ok || ld.Op != token.MUL {
+								continue
+							}
+							// only loads the call can reach
+							reach := false
+							w := &core.Walk{Visit: func(x ssa.Instruction) { reach = reach || x == ssa.Instruction(ld) }}
+							w.FromInstr(in)
+							if !reach {
+								continue
+							}
+							core.ForwardUses(ld, func(u ssa.Instruction, via ssa.Value) {
+								switch x := u.(type) {
+								case *ssa.MapUpdate:
+									if x.Value == via {
+										written = true
+									}
+								case *ssa.Store:
+									if x.Val == via && x.Addr != ssa.Value(al) {
+										written = true
+									}
+								case *ssa.Return:
+									written = true
+								}
+							})
+						}
+					}
+					if written {
+						r.Hold("C09.4.copy", construct, p.Pos(in.Pos()), "the filtered copy is stored back into the reply")
+					} else {
+						r.Violate("C09.4.copy", construct, p.Pos(in.Pos()), "the filter runs on a local copy of the slice ("+al.Comment+") and the filtered copy is never stored back: the reply keeps its original length over the compacted array, so an element the token may not read is returned")
+					}
+				}
+			}
+		}
+	}
+	r.Floor("C09.4.copy", 2)
 }
 
 func idxBlock(v ssa.Value) *ssa.BasicBlock {
